@@ -71,6 +71,7 @@ def cases(tier, seed):
             yield {"kind": "wiski_fantasy", "mean": mean, "depth": depth, "dims": dims, "seed": rnd.randrange(10**6)}
         for mean, depth, dims in itertools.product([0.0, 1.2], [2, 3], [1, 2]):
             yield {"kind": "wiski_fantasy", "mean": mean, "depth": depth, "dims": dims, "late_eval": True, "seed": rnd.randrange(10**6)}
+            yield {"kind": "wiski_fantasy", "mean": mean, "depth": depth, "dims": dims, "late_eval": bool(depth % 2), "fast_pred_var": True, "seed": rnd.randrange(10**6)}
         for sizes in ([12], [16], [9, 14], [14, 9], [8, 8], [6, 7, 8]):
             yield {"kind": "interp", "sizes": sizes, "seed": rnd.randrange(10**6)}
     for kern, dims in itertools.product(["rbf", "matern2.5"], [1, 2]):
@@ -576,7 +577,9 @@ def _wiski(case, ctx, g):
 
     name = "kiss1d" if case["dims"] == 1 else "kiss2d"
     late = bool(case.get("late_eval"))
-    with torch.no_grad():
+    from gpytorch import settings as S
+
+    with torch.no_grad(), S.fast_pred_var(bool(case.get("fast_pred_var"))):
         m, lik, X, y, xs = _mk_model(name, g, mean_const=case["mean"])
         d = X.shape[-1]
         m(xs)
@@ -610,9 +613,9 @@ def _wiski_check(ctx, case, m, lik, xs, level, cur, Xall, yall):
     J = m.covar_module(torch.cat([Xall, xs], -2)).to_dense()
     mu = m.mean_module(torch.cat([Xall, xs], -2))
     rm, rc, _, _ = util.dense_conditional(J[:n, :n], J[n:, :n], J[n:, n:], mu[:n], mu[n:], lik.noise.detach() * torch.eye(n), yall)
-    tag = ":late" if case.get("late_eval") else ""
+    tag = (":late" if case.get("late_eval") else "") + (":love" if case.get("fast_pred_var") else "")
     ctx.close("wiski_fantasy", out.mean, rm, (1e-6, 1e-6), cls=f"wiski:mean:m{case['mean']}{tag}", level=level, prior_mean=case["mean"], late=bool(case.get("late_eval")))
-    ctx.close("wiski_fantasy", out.covariance_matrix, rc, (1e-6, 1e-6), cls="wiski:cov" + tag, level=level, late=bool(case.get("late_eval")))
+    ctx.close("wiski_fantasy", out.covariance_matrix, rc, (1e-5, 1e-5) if case.get("fast_pred_var") else (1e-6, 1e-6), cls="wiski:cov" + tag, level=level, late=bool(case.get("late_eval")))
 
 
 def _interp(case, ctx, g):
